@@ -11,7 +11,7 @@ Property oracle on the implementation's observables alone (independent of the mo
 import json
 import os
 
-from harness import vcore, vscen
+from harness import vcore, vscen, vskel
 from vlib import core
 
 PROPS = ["Props/C07.v"]
@@ -105,9 +105,11 @@ def oracle(scen, out):
 
 
 def run(ctx):
-    n = 2400 if ctx.thorough() else 330
+    n = 2400 if ctx.thorough() else 420
     if os.path.exists(os.path.join(core.COQ, "Props", "C07.v")):
         core.check_props(ctx, PROPS)
+    # syntactic ties regenerated from the working tree: stage order and the shape of the stage functions
+    vskel.check(ctx, ("verify", "inspections"))
     recs, model = vcore.run_scenarios(ctx, OPT_SETS, n,
                                       families=("ed25519", "rsa", "ecdsa") if ctx.thorough() else ("ed25519",))
     dist, nviol = {}, 0
